@@ -8,6 +8,7 @@ import (
 	"fmt"
 	"net/http"
 	"net/http/httptest"
+	"os"
 	"runtime"
 	"sort"
 	"strings"
@@ -207,6 +208,7 @@ func Run(sc *Scenario) *History {
 			h.BurstGoroutines = runtime.NumGoroutine()
 			time.Sleep(time.Duration(cfg.SettleNs))
 		}
+		time.Sleep(time.Microsecond) // quiescence barrier: everything still unwinding has parked or exited
 		h.Census = w.Net.Census()
 		h.Goroutines = runtime.NumGoroutine()
 		if len(sc.Epilogue) > 0 {
@@ -370,7 +372,7 @@ func (r *runner) buildBody(op *Op, res *OpResult) []byte {
 	}
 	isn := op.ISN
 	if isn == 0 {
-		isn = r.nextISN()
+		isn = int32(op.ID) // a function of the scenario, not of which task got here first
 	}
 	res.ISN = isn
 	m["invocationSequenceNumber"] = isn
@@ -414,6 +416,7 @@ func (r *runner) buildBody(op *Op, res *OpResult) []byte {
 	if len(trigs) > 0 {
 		m["triggers"] = trigs
 	}
+	nSeq := 0
 	if len(op.Units) > 0 {
 		var muu []map[string]interface{}
 		res.ReqVol = map[int32]int32{}
@@ -449,7 +452,8 @@ func (r *runner) buildBody(op *Op, res *OpResult) []byte {
 					ce["quotaManagementIndicator"] = c.QMI
 				}
 				if !c.NoSeq {
-					rec.Seq = r.nextSeq()
+					nSeq++
+					rec.Seq = int32(op.ID)*10000 + int32(nSeq) // unique per scenario, independent of task order
 					ce["localSequenceNumber"] = rec.Seq
 				}
 				cs = append(cs, ce)
@@ -686,7 +690,18 @@ func relevantStacks() string {
 // self-test).
 func (h *History) Fingerprint() string {
 	hs := sha256.New()
-	w := func(f string, a ...interface{}) { fmt.Fprintf(hs, f, a...) }
+	var dbg *os.File
+	if p := os.Getenv("VERIF_FP_DEBUG"); p != "" {
+		dbg, _ = os.OpenFile(p, os.O_CREATE|os.O_WRONLY|os.O_APPEND, 0o644)
+		defer dbg.Close()
+		fmt.Fprintf(dbg, "==== seed %d\n", h.Scenario.Seed)
+	}
+	w := func(f string, a ...interface{}) {
+		fmt.Fprintf(hs, f, a...)
+		if dbg != nil {
+			fmt.Fprintf(dbg, f, a...)
+		}
+	}
 	all := append(append([]*OpResult(nil), h.Ops...), h.Epilogue...)
 	for _, o := range all {
 		w("op %d t%d %d-%d done=%v st=%d loc=%s body=%s\n", o.Op.ID, o.Task, o.StartNs, o.EndNs, o.Done, o.Status, o.Location, stripTS(o.RespBody))
@@ -697,7 +712,17 @@ func (h *History) Fingerprint() string {
 	for _, a := range h.Final {
 		w("final %s %d q=%d r=%d\n", a.Supi, a.RG, a.Quota, a.Reserved)
 	}
-	for _, m := range h.Msgs {
+	msgs := append([]*simnet.Msg(nil), h.Msgs...)
+	sort.SliceStable(msgs, func(i, j int) bool {
+		if msgs[i].SentAt != msgs[j].SentAt {
+			return msgs[i].SentAt < msgs[j].SentAt
+		}
+		if msgs[i].Conn != msgs[j].Conn {
+			return msgs[i].Conn < msgs[j].Conn
+		}
+		return !msgs[i].ToClient && msgs[j].ToClient
+	})
+	for _, m := range msgs {
 		w("msg c%d %s t%d op%d toc=%v cmd=%d req=%v sent=%d del=%d fault=%s len=%d\n", m.Conn, m.Peer, m.Task, m.Op, m.ToClient, m.Cmd, m.Request, m.SentAt, m.DeliverAt, m.Fault, len(m.Raw))
 	}
 	for _, j := range h.Journal {
@@ -707,7 +732,11 @@ func (h *History) Fingerprint() string {
 	for _, n := range h.Notifs {
 		w("notif %d %s %s %v\n", n.At, n.Method, n.URL, n.RGs)
 	}
-	w("census %+v go=%d end=%d aborted=%v\n", h.Census, h.Goroutines-h.GoBase, h.SimEndNs, h.Aborted)
+	goDelta := 0
+	if h.Scenario.Cfg.SettleNs > 0 {
+		goDelta = h.Goroutines - h.GoBase // only meaningful (and quiescent) after the settle phase
+	}
+	w("census %+v go=%d end=%d aborted=%v\n", h.Census, goDelta, h.SimEndNs, h.Aborted)
 	return hex.EncodeToString(hs.Sum(nil)[:12])
 }
 
